@@ -276,7 +276,9 @@ func run(c Case) (pbt.Outcome, error) {
 			if op.K == "sub" {
 				child, cm = ms.s.SubScope(string(op.Name)), ms.m.Sub(string(op.Name))
 			} else {
-				child, cm = ms.s.Tagged(op.Tags.Std()), ms.m.Tagged(op.Tags.Std())
+				tg := op.Tags.Std()
+				child, cm = ms.s.Tagged(tg), ms.m.Tagged(op.Tags.Std())
+				pbt.Spoil(tg) // the caller re-uses its map: the scope's tags must not follow
 			}
 			n := &mscope{m: cm, s: child, inert: ms.inert || ms.closed}
 			// the same identity obtained again is the same scope (closed or not)
